@@ -397,6 +397,57 @@ def _r5(ctx):
                   f.where(), "%s lost its `semantic_operands is None` guard" % q, q, "roles guard")
 
 
+def _r8(ctx):
+    """The one analysis step that looks at distances between line numbers (the deprecated hidden-load pass: for each store it
+    hides the load whose line number is closest) runs only for models that declare hidden loads - no shipped model does. If
+    it ran, inserting comment / label / blank lines between a load and a store would change which load is hidden."""
+    import re as _re
+    from .. import consteval
+    ctx.rule("R8", "the line-distance heuristic (set_hidden_loads) runs only for models declaring hidden loads; no shipped model does")
+    calls = []
+    for q, fi in ctx.repo.funcs.items():
+        if fi.file.startswith("osaca/data/"):
+            continue
+        for c in C.calls_to(fi.node, "set_hidden_loads"):
+            calls.append((fi, c))
+    for fi, c in calls:
+        ctx.touch(fi)
+        guard = any(pol and isinstance(e, ast.Call) and pm.call_name(e).endswith("has_hidden_loads") for e, pol in C.norm_fact_nodes(c))
+        ctx.check(guard, "R8", "set_hidden_loads is called only under has_hidden_loads()", fi.where(c),
+                  "the hidden-load pass (closest load by line-number distance) runs although the model does not declare hidden loads: "
+                  "comment / label / blank lines between a load and a store then change which load is hidden", fi.qname, "hidden-load pass guarded")
+    h = ctx.func("MachineModel.has_hidden_loads")
+    # the accessor, folded over every value the field takes in the model files (and a model without the field)
+    seen = {}
+    data_dir = ctx.repo.root / "osaca" / "data"
+    for yml in sorted(data_dir.glob("*.yml")):
+        txt = yml.read_text(encoding="utf-8", errors="replace")
+        m = _re.search(r"(?m)^hidden_loads:[ \t]*([^#\n]*)", txt)
+        if m:
+            seen.setdefault(m.group(1).strip(), []).append(yml.name)
+    yaml_val = {"false": False, "False": False, "~": None, "null": None, "": None, "true": True, "True": True}
+    cases = [("<field missing>", consteval.Obj(_data={}))]
+    for raw in sorted(seen):
+        if raw not in yaml_val:
+            ctx.unknown("R8", "hidden_loads value", "osaca/data/%s" % seen[raw][0], "value %r is not a YAML boolean / null" % raw)
+            continue
+        cases.append(("hidden_loads: %s (%s)" % (raw or "~", ", ".join(seen[raw][:4])), consteval.Obj(_data={"hidden_loads": yaml_val[raw]})))
+        ctx.check(yaml_val[raw] is not True, "R8", "no shipped model declares hidden loads (%s)" % ", ".join(seen[raw][:3]),
+                  "osaca/data/%s" % seen[raw][0], "the model declares hidden loads: its analysis depends on line-number distances",
+                  "data", "hidden_loads true in " + seen[raw][0])
+    for label, obj in cases:
+        want = bool(obj["_data"].get("hidden_loads"))
+        try:
+            kind, val = consteval.call(h.node, obj)
+        except consteval.Unsupported as e:
+            ctx.unknown("R8", "has_hidden_loads folded for " + label, h.where(), "not foldable: %s" % e)
+            continue
+        ctx.check(kind == "return" and bool(val) == want, "R8", "has_hidden_loads() is %s for %s" % (want, label), h.where(),
+                  "has_hidden_loads() answers %r for a model with %s: the line-distance heuristic is switched on for models that do "
+                  "not declare hidden loads" % (val if kind == "return" else kind, label), h.qname, "has_hidden_loads " + label.split(" (")[0])
+    ctx.floor("R8", "calls of the hidden-load pass", len(calls), 1)
+
+
 def run(ctx):
     C.require_locals(ctx, ctx.func('marker_utils.find_marked_section'), ['index_start', 'index_end', 'source', 'destination', 'line', 'lines', 'i', 'comments', 'mov_instr', 'reverse', 'parser'])
     C.require_locals(ctx, ctx.func('marker_utils.reduce_to_section'), ['start', 'end', 'isa'])
@@ -406,6 +457,7 @@ def run(ctx):
     _r3(ctx)
     _r4(ctx)
     _r5(ctx)
+    _r8(ctx)
     # R7: lines without a mnemonic (comments, labels, directives) inside the kernel are transparent for the multi-process LCD search too
     from . import c16
     ctx.rule("R7", "the multi-process LCD search covers every line of the kernel, whatever kind of line it is (C16-R1)")
